@@ -2,8 +2,9 @@
 // themselves (ConfigValue::update_value, ConfigActor::{set_config, set_tmp_config, del_config}) are under contract in this unit;
 // this enumeration decides the statement over operation SEQUENCES when a rewrite of those functions (a new helper, a reshaped
 // body) takes their text out of the proof's reach.
-// Every sequence of up to 5 operations out of 10 on two keys — publish content x / y (the apply path), remove, a routed value
-// recorded provisionally ahead of its log entry (SetTmpValue, different from the stored content) — on the REAL ConfigActor;
+// Every sequence of up to 5 operations out of 12 on two keys — publish content x / y (the apply path), remove, a routed value
+// recorded provisionally ahead of its log entry (SetTmpValue, different from the stored content), a full value that arrives as a
+// snapshot record / import (SetFullValue) — on the REAL ConfigActor;
 // after every step: the content and md5 read back, the history (one entry per publish that changed the content, newest first),
 // the listing.  One long run checks the bound of 100 history entries.
 use super::*;
@@ -25,7 +26,7 @@ fn history(actor: &ConfigActor, key: &ConfigKey) -> (usize, Vec<String>) {
 struct KeyModel { content: Option<String>, published: bool, provisional: bool, history: Vec<String> }   // history: oldest first
 
 #[derive(Clone, Copy, Debug)]
-enum Op { Pub(usize, usize), Del(usize), Tmp(usize, usize) }
+enum Op { Pub(usize, usize), Del(usize), Tmp(usize, usize), Full(usize, usize) }
 
 fn check(actor: &ConfigActor, keys: &[ConfigKey], model: &[KeyModel], trace: &[Op]) -> Result<(), String> {
     for (ki, key) in keys.iter().enumerate() {
@@ -73,6 +74,9 @@ fn vx_bounded_config_store() {
     for k in 0..2 { for c in 0..2 { ops.push(Op::Pub(k, c)); } }
     for k in 0..2 { ops.push(Op::Del(k)); }
     for k in 0..2 { for c in 0..2 { ops.push(Op::Tmp(k, c)); } }
+    // a FULL value of the key arrives (snapshot record / data import: ConfigCmd::SetFullValue -> inner_set_config): it replaces
+    // whatever the node holds for the key, provisional values included, and the key is a stored configuration from then on
+    for k in 0..2 { ops.push(Op::Full(k, k)); }
     let n = ops.len();
     let mut failures: Vec<String> = vec![];
     let mut steps = 0u64;
@@ -97,6 +101,12 @@ fn vx_bounded_config_store() {
                         m.content = Some(contents[ci].to_string()); m.published = true; m.provisional = false;
                     }
                     Op::Del(k) => { actor.del_config(keys[k].clone()).unwrap(); model[k] = KeyModel::default(); }
+                    Op::Full(k, ci) => {
+                        hid += 1;
+                        actor.inner_set_config(keys[k].clone(), ConfigValue::init(Arc::new(contents[ci].to_string()), hid, 1_700_000_000_000 + hid as i64, None, None));
+                        let m = &mut model[k];
+                        m.content = Some(contents[ci].to_string()); m.published = true; m.provisional = false; m.history = vec![contents[ci].to_string()];
+                    }
                     Op::Tmp(k, ci) => {
                         // a routed publish of DIFFERENT content, seen before its log entry (identical content is not routed as a change)
                         if model[k].content.as_deref() == Some(contents[ci]) { continue; }
@@ -121,6 +131,6 @@ fn vx_bounded_config_store() {
         let (total, got) = history(&actor, &keys[0]);
         if total != 100 || got != want { failures.push(format!("VX-BOUNDED-FAIL HISTORY-BOUND after 105 content-changing publishes the history has {} entries starting {:?}, the statement says the newest 100 starting {:?}", total, &got[..got.len().min(3)], &want[..3])); }
     }
-    assert!(steps > 300_000 || !failures.is_empty(), "only {} steps", steps);
+    assert!(steps > 600_000 || !failures.is_empty(), "only {} steps", steps);
     assert!(failures.is_empty(), "{} failing sequence(s), first ones:\n{}", failures.len(), failures.iter().take(6).cloned().collect::<Vec<_>>().join("\n"));
 }
